@@ -430,7 +430,7 @@ static PermissionResult fix_permissions_if_needed(std::ostream& out, const Optio
 }
 
 void write_patched_result_to_file(const Patch& patch, const std::string& output_file_path, const PermissionResult& permission_result,
-    std::ios::openmode mode, DeferredWriter& deferred_writer, File& patched_file)
+    std::ios::openmode mode, DeferredWriter& deferred_writer, File& patched_file, Backup* backup)
 {
     // Ensure that parent directories exist if we are adding a file, also under a new name.
     if (patch.operation == Operation::Add || patch.operation == Operation::Rename || patch.operation == Operation::Copy)
@@ -440,7 +440,11 @@ void write_patched_result_to_file(const Patch& patch, const std::string& output_
 
     // A read-only file is only made writable for as long as it is being written to, so that it is
     // left as it was should anything go wrong before that.
-    auto prepare_callback = [permission_result](const std::string& path) {
+    // Likewise the original is only moved out of the way to its backup right before it is replaced.
+    auto prepare_callback = [permission_result, backup](const std::string& path) {
+        if (backup)
+            backup->make_backup_for(path);
+
         const auto write_perm_mask = filesystem::perms::group_write | filesystem::perms::owner_write | filesystem::perms::others_write;
         if (permission_result.needed_to_fix_permissions && filesystem::exists(path))
             filesystem::permissions(path, permission_result.old_permissions | write_perm_mask);
@@ -471,6 +475,8 @@ void write_patched_result_to_file(const Patch& patch, const std::string& output_
         if (filesystem::is_symlink(patch.new_file_mode)) {
             // A symlink patch should contain the filename in the contents of the patched file.
             const auto symlink_target = patched_file.read_all_as_string();
+            if (backup)
+                backup->make_backup_for(output_file_path);
             filesystem::symlink(symlink_target, output_file_path);
         } else {
             deferred_writer.deferred_write(std::move(patched_file), output_file_path, std::move(prepare_callback), std::move(permission_callback));
@@ -676,9 +682,7 @@ int process_patch(const Options& options)
             }
 
             if (write_to_file) {
-                if (should_backup)
-                    backup.make_backup_for(output_file);
-                write_patched_result_to_file(patch, output_file, permission_result, mode, deferred_writer, tmp_out_file);
+                write_patched_result_to_file(patch, output_file, permission_result, mode, deferred_writer, tmp_out_file, should_backup ? &backup : nullptr);
             }
 
             if (result.failed_hunks == 0) {
